@@ -71,6 +71,20 @@ def states(p, level):
     return out
 
 
+def constant_states(p, C):
+    """States chosen from the algorithm's own constants: lane j = -rc[0][j], so that the first S-box input of that lane
+    is exactly 0 (and 1, and p-1): value-dependent shortcuts in the S-box change the trace there."""
+    rc0 = C["round_constants"][0] if isinstance(C["round_constants"][0], (list, tuple)) else C["round_constants"][:5]
+    out = []
+    for j in range(5):
+        for target in (0, 1, p - 1):
+            s = [3, 4, 5, 6, 7]
+            s[j] = (target - int(rc0[j])) % p
+            out.append(tuple(s))
+    out.append(tuple((0 - int(rc0[j])) % p for j in range(5)))
+    return out
+
+
 def messages(p, level):
     out = []
     for ln in range(0, 4):
@@ -106,6 +120,8 @@ def _task(t):
     H.reset(bitlength=16, resolution=2)
     ncons = None
     st["executions"] += 1
+    if kind == "perm" and item and item[0] == "const":
+        item = constant_states(p, C)[item[1]]
     if kind == "perm":
         inp = [rt.PrivVal(v) for v in item]
         out = ph.permute(inp)
@@ -318,7 +334,7 @@ def run(ctx):
     agg = {}
     ncons_seen = {}
     for name, (mod, p) in FIELDS.items():
-        tasks = [("perm", name, s) for s in states(p, level)] + [("sponge", name, m) for m in messages(p, level)]
+        tasks = [("perm", name, s) for s in states(p, level)] + [("perm", name, ("const", i)) for i in range(16)] + [("sponge", name, m) for m in messages(p, level)]
         tasks += [("padding", name, None), ("ggh", name, 10 if ctx.thorough else 8)]
         tasks += [("gghlong", name, (ln,)) for ln in ((255, 256, 257, 300, 513) + ((511, 512, 1025) if ctx.thorough else ()))]
         random.Random(ctx.seed).shuffle(tasks)
